@@ -238,6 +238,7 @@ func (e *Eng) doAlloc(fr *Frame, st *State, in *ssa.Alloc) Val {
 		p := &PtrV{Kind: pStruct, Ref: r, Elem: et, NonNil: true}
 		e.assume(st, tEq(e.rtypeOf(r), e.structTag(et)))
 		e.storePtr(fr, st, p, et, zeroVal(et))
+		e.noteLocal(fr, in, p)
 		return p
 	case *types.Array:
 		p := &PtrV{Kind: pArr, Ref: r, Elem: et, NonNil: true}
@@ -246,7 +247,120 @@ func (e *Eng) doAlloc(fr *Frame, st *State, in *ssa.Alloc) Val {
 	}
 	p := &PtrV{Kind: pCell, Ref: r, Fam: "C|" + elemKey(et), Elem: et, NonNil: true}
 	e.storePtr(fr, st, p, et, zeroVal(et))
+	e.noteLocal(fr, in, p)
 	return p
+}
+
+// A local variable of the function under verification whose address never leaves the function except
+// into closures that only read it cannot be written by any call: its storage survives call havocs.
+type privLocal struct {
+	alloc *ssa.Alloc
+	p     *PtrV
+}
+
+func (e *Eng) noteLocal(fr *Frame, in *ssa.Alloc, p *PtrV) {
+	if fr.fn != e.fn || !e.privateAlloc(in) {
+		return
+	}
+	for _, pl := range e.privLocals {
+		if pl.alloc == in {
+			return
+		}
+	}
+	e.privLocals = append(e.privLocals, privLocal{in, p})
+}
+
+func (e *Eng) privateAlloc(a *ssa.Alloc) bool {
+	if v, ok := e.privMemo[a]; ok {
+		return v
+	}
+	if e.privMemo == nil {
+		e.privMemo = map[*ssa.Alloc]bool{}
+	}
+	ok := addrUsesPrivate(a, 0)
+	e.privMemo[a] = ok
+	return ok
+}
+
+// addrUsesPrivate: every use of the address v is a load, a store INTO it, a field/element address whose
+// uses are again private, or a capture by a closure that itself only loads through the captured pointer.
+func addrUsesPrivate(v ssa.Value, depth int) bool {
+	if depth > 4 || v.Referrers() == nil {
+		return false
+	}
+	for _, r := range *v.Referrers() {
+		switch x := r.(type) {
+		case *ssa.DebugRef:
+		case *ssa.UnOp:
+			if x.Op != token.MUL {
+				return false
+			}
+		case *ssa.Store:
+			if x.Val == v {
+				return false
+			}
+		case *ssa.FieldAddr:
+			if !addrUsesPrivate(x, depth+1) {
+				return false
+			}
+		case *ssa.MakeClosure:
+			fn := x.Fn.(*ssa.Function)
+			for i, b := range x.Bindings {
+				if b == v {
+					if i >= len(fn.FreeVars) || !readOnlyCapture(fn.FreeVars[i], depth+1) {
+						return false
+					}
+				}
+			}
+		default:
+			return false
+		}
+	}
+	return true
+}
+
+func readOnlyCapture(fv *ssa.FreeVar, depth int) bool {
+	if depth > 4 || fv.Referrers() == nil {
+		return false
+	}
+	for _, r := range *fv.Referrers() {
+		switch x := r.(type) {
+		case *ssa.DebugRef:
+		case *ssa.UnOp:
+			if x.Op != token.MUL {
+				return false
+			}
+		case *ssa.MakeClosure:
+			fn := x.Fn.(*ssa.Function)
+			for i, b := range x.Bindings {
+				if b == ssa.Value(fv) {
+					if i >= len(fn.FreeVars) || !readOnlyCapture(fn.FreeVars[i], depth+1) {
+						return false
+					}
+				}
+			}
+		default:
+			return false
+		}
+	}
+	return true
+}
+
+// savePrivLocals / restorePrivLocals bracket a havoc of memory.
+func (e *Eng) savePrivLocals(st *State) []Val {
+	var vs []Val
+	for _, pl := range e.privLocals {
+		vs = append(vs, e.loadPtr(e.fr, st, pl.p, pl.p.Elem))
+	}
+	return vs
+}
+
+func (e *Eng) restorePrivLocals(st *State, vs []Val) {
+	for i, pl := range e.privLocals {
+		if i < len(vs) {
+			e.storePtr(e.fr, st, pl.p, pl.p.Elem, vs[i])
+		}
+	}
 }
 
 func (e *Eng) changeType(fr *Frame, in *ssa.ChangeType) Val {
